@@ -28,6 +28,7 @@ def run(chk: Check):
            what="pairwise monotonicity over whole epochs with pointwise ordered acceptance sequences")
 
     traces = [D.direct_trace(rng) for _ in range(150 if chk.quick else 3000)]
+    traces += D.extreme_direct_traces()
     traces += D.enumerated_direct_traces([0.0, 0.25, 0.5, 0.75, 1.0], 3 if chk.quick else 5,
                                          [0.25, 0.5, 0.75, 0.8])
     # every dual-averaging constant differs from the kernels' defaults (0.05, 0.75, 10) in both sets
